@@ -1058,12 +1058,13 @@ fn family_c12(out: &mut Vec<Case>) {
             for mode in 0..3u8 {
                 let (dq, sq, tx, jl) = (enc_markup(&s, mode, '"'), enc_markup(&s, mode, '\''), enc_markup(&s, mode, '\0'), enc_jslit(&s, mode));
                 let tpl = format!(
-                    "<v a=\"{dq}\" b='{sq}' data-k=\"{dq}\" mark:m=\"{dq}\" class=\"{dq}\" id=\"{dq}\" u=\"x{{{{ n }}}}{dq}\">{tx}</v><w v=\"{{{{ {jl} }}}}\">{{{{ {jl} }}}}</w><y>{{{{ n }}}}{tx}</y><z>{{{{ {jl} }}}}{tx}</z><slot name=\"{dq}\"/>",
+                    "<v a=\"{dq}\" b='{sq}' data-k=\"{dq}\" mark:m=\"{dq}\" class=\"{dq}\" id=\"{dq}\" u=\"x{{{{ n }}}}{dq}\">{tx}</v><w v=\"{{{{ {jl} }}}}\">{{{{ {jl} }}}}</w><y>{{{{ n }}}}{tx}</y><z>{{{{ {jl} }}}}{tx}</z><slot name=\"{dq}\"/><i wx:for=\"{{{{ [1] }}}}\" wx:key=\"{dq}\"/><comp generic:g=\"{dq}\" slot=\"{dq}\" bind:tap=\"{dq}\" worklet:w=\"{dq}\" style=\"{dq}\"/>",
                     dq = dq, sq = sq, tx = tx, jl = jl
                 );
                 let checks = vec![
                     ("r:a", w.clone(), false), ("r:b", w.clone(), false), ("d:k", w.clone(), false), ("m:m", w.clone(), false), ("c", w.clone(), false), ("i", w.clone(), false),
                     ("r:u", format!("\"x\" + {}", w), false), ("r:v", w.clone(), false), ("t", format!("[{w}, {w}, {w}, {w} + {w}]", w = w), true), ("sn", w.clone(), false),
+                    ("fk", w.clone(), false), ("gen", format!("({{g: {}}})", w), false), ("slot", w.clone(), false), ("v:tap", w.clone(), false), ("wl:w", w.clone(), false), ("y", w.clone(), false),
                 ];
                 out.push(c12_case(format!("c12/char/{:x}/{}", *ch as u32, mode), tpl, checks));
             }
@@ -1092,6 +1093,19 @@ fn family_c12(out: &mut Vec<Case>) {
         out.push(c12_case(format!("c12/unterminated/{}", stem), tpl, vec![
             ("r:a", w_amp.clone(), false), ("r:b", w.clone(), false), ("r:c", w.clone(), false), ("r:d", w_num.clone(), false), ("r:u", w.clone(), false), ("d:k", w.clone(), false),
             ("t", format!("[{w}, {w}, {n}, {a}, {w}, {w}]", w = w, n = w_num, a = w_amp), true),
+        ]));
+    }
+    // (B3) leading / trailing whitespace of a static attribute value belongs to the value, in every static position
+    for val in [" x ", "\tx", "x\n", "\u{a0}x\u{3000}", " ", "  ", "\u{2028}x\u{2029}", " a  b ", "\r\nx"] {
+        let dq = val.replace('&', "&amp;").replace('"', "&quot;");
+        let w = jsstr(val);
+        let tpl = format!(
+            "<v a=\"{dq}\" data-k=\"{dq}\" mark:m=\"{dq}\" class=\"{dq}\" id=\"{dq}\" style=\"{dq}\" u=\"{dq}{{{{ n }}}}{dq}\"/><slot name=\"{dq}\"/><i wx:for=\"{{{{ [1] }}}}\" wx:key=\"{dq}\"/><comp generic:g=\"{dq}\" slot=\"{dq}\" bind:tap=\"{dq}\" worklet:w=\"{dq}\"/>",
+            dq = dq
+        );
+        out.push(c12_case(format!("c12/edges/{}", val.escape_unicode()), tpl, vec![
+            ("r:a", w.clone(), false), ("d:k", w.clone(), false), ("m:m", w.clone(), false), ("c", w.clone(), false), ("i", w.clone(), false), ("y", w.clone(), false), ("r:u", format!("{w} + {w}", w = w), false),
+            ("sn", w.clone(), false), ("fk", w.clone(), false), ("gen", format!("({{g: {}}})", w), false), ("slot", w.clone(), false), ("v:tap", w.clone(), false), ("wl:w", w.clone(), false),
         ]));
     }
     // (C) unquoted attribute values
